@@ -624,6 +624,139 @@ Proof.
 Qed.
 End SwarmEProofs.
 
+(* ---------------------------------------------------------------------- *)
+(* 2c. a long-lived swarm: the object's own counter and event logs           *)
+Section SwarmOProofs.
+Variables Env Hint : Type.
+Variable spawn : Env -> nat -> Hint -> Env * bool.
+Variable wstepf : Env -> nat -> Env * wstep.
+Variable summarize : Env -> nat -> Hint.
+Variable memlen : Env -> nat -> nat.
+Variable h0 : Hint.
+Variable thr : Q.
+Variables max_regenerations max_steps : Z.
+
+Notation sle := (sup_loop_e spawn wstepf summarize memlen thr).
+Notation supe := (supervise_e spawn wstepf summarize memlen h0 thr max_regenerations max_steps).
+Notation supo := (supervise_o spawn wstepf summarize memlen h0 thr max_regenerations max_steps).
+Notation oruns := (swarm_obj_runs spawn wstepf summarize memlen h0 thr max_regenerations max_steps).
+Notation eruns := (swarm_runs_e spawn wstepf summarize memlen h0 thr max_regenerations max_steps).
+
+(* a run records at most one regeneration event between two consecutive workers
+   and none after the last worker the budget allows *)
+Lemma sle_regen_len : forall steps n w hints e e' ws rg f,
+  sle steps n w hints e = (e', ws, rg, f) -> length rg <= pred n.
+Proof.
+  induction n as [|n IH]; intros w hints e e' ws rg f H.
+  - cbn in H. inversion H; subst. cbn. lia.
+  - rewrite sle_S in H. destruct (spawn e w hints) as [e1 ok]. destruct ok.
+    + destruct (run_worker_e wstepf thr w steps [] e1) as [[e2 c] r].
+      destruct r as [o| | | |];
+        try (inversion H; subst; cbn; lia);
+        destruct (sle steps n (S w) (summarize e2 w) e2) as [[[e3 ws'] rg'] f'] eqn:E';
+        inversion H; subst; apply IH in E'; rewrite app_length; destruct n; cbn in *; lia.
+    + inversion H; subst. cbn. lia.
+Qed.
+
+Lemma filter_map_comm {A B} (g : A -> B) (p : B -> bool) (l : list A) :
+  filter p (map g l) = map g (filter (fun x => p (g x)) l).
+Proof.
+  induction l as [|a l IH]; cbn; [reflexivity|]. destruct (p (g a)); cbn; rewrite IH; reflexivity.
+Qed.
+
+Lemma filter_len_le {A} (p : A -> bool) (l : list A) : length (filter p l) <= length l.
+Proof. induction l as [|a l IH]; cbn; [lia|]. destruct (p a); cbn; lia. Qed.
+
+Lemma supe_parts w0 e :
+  exists e' ws rg f,
+    sle (Z.to_nat max_steps) (Z.to_nat (max_regenerations + 1)) w0 h0 e = (e', ws, rg, f) /\
+    supe w0 e = (e', snd (fst (supe w0 e)), ws) /\
+    let R := snd (fst (supe w0 e)) in
+    s_workers R = map we_rec ws /\ s_regen R = rg /\
+    s_apoptosis R = length (ap_events ws).
+Proof.
+  unfold supervise_e.
+  destruct (sle (Z.to_nat max_steps) (Z.to_nat (max_regenerations + 1)) w0 h0 e) as [[[e' ws] rg] f].
+  exists e', ws, rg, f.
+  assert (L : length (filter is_failed (map we_rec ws)) = length (ap_events ws)).
+  { unfold ap_events. rewrite filter_map_comm, !map_length. reflexivity. }
+  destruct f; cbn; repeat split; exact L.
+Qed.
+
+(* one call on the object in ANY state o (any counter, any logs), ANY environment state *)
+Lemma supo_spec : forall o e e' o' R ws,
+  supo o e = (e', o', R, ws) ->
+  (s_workers R = map we_rec ws /\
+   length (s_workers R) <= Z.to_nat (max_regenerations + 1) /\
+   (forall i r, nth_error (s_workers R) i = Some r -> w_idx r = so_counter o + i) /\
+   (forall r, In r (s_workers R) -> w_steps r <= Z.to_nat max_steps) /\
+   (s_success R = true ->
+      exists w j out e1, In (mkW w (S j) (WSuccess out)) (s_workers R) /\
+                         snd (wstepf e1 w) = WOut out true /\ s_output R = Some out) /\
+   (s_success R = false -> s_output R = None)) /\
+  so_counter o' = so_counter o + length (s_workers R) /\
+  (exists new, so_ap o' = so_ap o ++ new /\ length new = s_apoptosis R /\
+               length new <= Z.to_nat (max_regenerations + 1)) /\
+  (exists new, so_rg o' = so_rg o ++ new /\ new = s_regen R /\
+               length new <= Z.to_nat max_regenerations).
+Proof.
+  intros o e e' o' R ws H. unfold supervise_o in H.
+  destruct (supe_parts (so_counter o) e) as (e1 & ws1 & rg & f & E & Hsup & Hw & Hrg & Hap).
+  rewrite Hsup in H. injection H as He Ho HR Hws. subst e' o' R ws. cbv zeta in Hw, Hrg, Hap.
+  set (R := snd (fst (supe (so_counter o) e))) in *.
+  assert (Hhist : In (so_counter o, R, ws1) (eruns 1 (so_counter o) e)).
+  { cbn [swarm_runs_e]. rewrite Hsup. left. reflexivity. }
+  pose proof (swarm_e_history_proof Env Hint spawn wstepf summarize memlen h0 thr
+                max_regenerations max_steps 1 (so_counter o) e _ _ _ Hhist) as HH.
+  split; [exact HH|]. destruct HH as (_ & Hlen & _).
+  cbn [so_counter so_ap so_rg]. split; [rewrite Hw, map_length; reflexivity|]. split.
+  - exists (ap_events ws1). split; [reflexivity|]. split; [symmetry; exact Hap|].
+    unfold ap_events. rewrite map_length.
+    pose proof (filter_len_le (fun x : wrece Hint => is_failed (we_rec x)) ws1) as Hf.
+    rewrite Hw, map_length in Hlen. lia.
+  - exists (s_regen R). split; [reflexivity|]. split; [reflexivity|].
+    rewrite Hrg. apply sle_regen_len in E. lia.
+Qed.
+
+(* forgetting the logs gives the history model of section 2b: the logs are ghost
+   state as far as the budgets go -- no run reads them *)
+Lemma swarm_obj_refines_proof : forall n o e,
+  map (fun x : sobj * swarm_result * list (wrece Hint) * sobj =>
+         (so_counter (fst (fst (fst x))), snd (fst (fst x)), snd (fst x))) (oruns n o e)
+  = eruns n (so_counter o) e.
+Proof.
+  induction n as [|n IH]; intros o e; [reflexivity|].
+  cbn [swarm_obj_runs swarm_runs_e]. unfold supervise_o.
+  destruct (supe_parts (so_counter o) e) as (e1 & ws1 & rg & f & _ & Hsup & Hw & _).
+  rewrite Hsup. cbv zeta in Hw. cbn [map fst snd]. f_equal.
+  rewrite IH. cbn [so_counter]. rewrite Hw, map_length. reflexivity.
+Qed.
+
+(* every call of any number of consecutive calls on ONE object, from any state *)
+Lemma swarm_obj_history_proof : forall n o e o1 R ws o2,
+  In (o1, R, ws, o2) (oruns n o e) ->
+  (s_workers R = map we_rec ws /\
+   length (s_workers R) <= Z.to_nat (max_regenerations + 1) /\
+   (forall i r, nth_error (s_workers R) i = Some r -> w_idx r = so_counter o1 + i) /\
+   (forall r, In r (s_workers R) -> w_steps r <= Z.to_nat max_steps) /\
+   (s_success R = true ->
+      exists w j out e1, In (mkW w (S j) (WSuccess out)) (s_workers R) /\
+                         snd (wstepf e1 w) = WOut out true /\ s_output R = Some out) /\
+   (s_success R = false -> s_output R = None)) /\
+  so_counter o2 = so_counter o1 + length (s_workers R) /\
+  (exists new, so_ap o2 = so_ap o1 ++ new /\ length new = s_apoptosis R /\
+               length new <= Z.to_nat (max_regenerations + 1)) /\
+  (exists new, so_rg o2 = so_rg o1 ++ new /\ new = s_regen R /\
+               length new <= Z.to_nat max_regenerations).
+Proof.
+  induction n as [|n IH]; intros o e o1 R ws o2 Hin; [destruct Hin|].
+  cbn [swarm_obj_runs] in Hin.
+  destruct (supo o e) as [[[e' o'] R'] ws'] eqn:E.
+  destruct Hin as [Heq | Hin]; [|exact (IH _ _ _ _ _ _ Hin)].
+  inversion Heq; subst. exact (supo_spec _ _ _ _ _ _ E).
+Qed.
+End SwarmOProofs.
+
 (* the stateless model of section 2 is the instance "environment = the step
    index of the current worker": same workers, steps, regenerations, result *)
 Section SwarmStateless.
@@ -688,7 +821,7 @@ End SwarmStateless.
 Section ToolProofs.
 Variable St : Type.
 Variable with_tools : St -> Z -> list Z -> St * presp.
-Variable complete : St -> Z -> bool -> list Z -> St * option Z.
+Variable complete : St -> Z -> bool -> list Z -> St * cres.
 Variable tool_pre : St -> Z -> St * taction.
 Variable tool_post : St -> Z -> option Z -> St * Z.
 Variable has_tools has_method : bool.
@@ -746,7 +879,7 @@ Lemma tloop_S (nested : nested_t) n s log q prev auto :
   tloop nested (S n) s log q prev auto =
   let '(s1, r) := with_tools s q prev in
   match r with
-  | PRaise => (s1, log, TTools q prev TNil, TProviderRaised)
+  | PRaise x => (s1, log, TTools q prev TNil, TProviderRaised x)
   | PResp c [] => (s1, log ++ [c], TTools q prev TNil, TReturned c)
   | PResp c calls =>
       if auto then
@@ -827,9 +960,9 @@ Qed.
 
 (* ---- every nested activation ------------------------------------------- *)
 Section Generic.
-Variable P : Z -> bool -> trace -> Prop.
+Variable P : Z -> bool -> trace -> tfinal -> Prop.
 Hypothesis P_twt : forall (nested : nested_t) s log q l a s' log' t f,
-  TWT nested s log q l a = (s', log', t, f) -> P l a t.
+  TWT nested s log q l a = (s', log', t, f) -> P l a t f.
 
 Section OneLevel.
 Variable nested : nested_t.
@@ -844,7 +977,7 @@ Proof.
   - inversion H; subst. exact I.
   - inversion H; subst. exact I.
   - destruct (transcribe complete s1 log q0 false []) as [[s2 log2] c].
-    destruct (tool_post s2 call c) as [s3 r']. inversion H; subst. exact I.
+    destruct (tool_post s2 call (cres_opt c)) as [s3 r']. inversion H; subst. exact I.
   - destruct (nested s1 log q0 l0 a0) as [[[s2 log2] i'] c] eqn:E.
     destruct (tool_post s2 call c) as [s3 r']. inversion H; subst.
     eapply nested_good; eauto.
@@ -921,7 +1054,7 @@ Proof.
 Qed.
 
 Lemma top_all : forall d s log q l a s' log' t f,
-  top d s log q l a = (s', log', t, f) -> P l a t /\ nested_all P t.
+  top d s log q l a = (s', log', t, f) -> P l a t f /\ nested_all P t.
 Proof.
   intros d s log q l a s' log' t f H. unfold transcribe_with_tools in H. split.
   - eapply P_twt; eauto.
@@ -931,7 +1064,7 @@ Qed.
 (* any history of calls on one nucleus *)
 Lemma rcalls_all : forall cs d s log q rs logf,
   rcalls d s log q cs = (rs, logf) ->
-  Forall (fun c => P (c_limit c) (c_auto c) (c_trace c) /\ nested_all P (c_trace c)) rs.
+  Forall (fun c => P (c_limit c) (c_auto c) (c_trace c) (c_final c) /\ nested_all P (c_trace c)) rs.
 Proof.
   induction cs as [|[l a] cs IH]; intros d s log q rs logf H.
   - cbn in H. inversion H; subst. constructor.
@@ -944,7 +1077,8 @@ Proof.
 Qed.
 End Generic.
 
-Definition local_P (l : Z) (_ : bool) (t : trace) : Prop := local_ok l t.
+Definition local_P (l : Z) (_ : bool) (t : trace) (_ : tfinal) : Prop := local_ok l t.
+Definition exact_P (l : Z) (a : bool) (t : trace) (_ : tfinal) : Prop := exact_when_auto l a t.
 
 Lemma tool_rounds_le_proof : forall d s log q limit auto s' log' t f,
   top d s log q limit auto = (s', log', t, f) ->
@@ -962,14 +1096,88 @@ Proof.
   intros nested s0 log0 q0 l a s'0 log'0 t0 f0 H0. eapply twt_local; eauto.
 Qed.
 
+(* ---- an exception that leaves an activation is the provider's own ------- *)
+Notation rbl := (raised_by_last with_tools complete).
+
+Lemma transcribe_snd s log q fin prev s1 log1 c :
+  transcribe complete s log q fin prev = (s1, log1, c) -> snd (complete s q fin prev) = c.
+Proof.
+  unfold transcribe. destruct (complete s q fin prev) as [s0 r].
+  destruct r; intros H; inversion H; subst; reflexivity.
+Qed.
+
+Lemma rbl_tools x q p r : rbl x r -> rbl x (TTools q p r).
+Proof. destruct r; intros H; [destruct H | exact H | exact H | exact H]. Qed.
+
+Lemma rbl_add x xs t : rbl x t -> rbl x (add_execs xs t).
+Proof.
+  induction xs as [|[[c i] r] xs IH]; intros H; cbn [add_execs]; [exact H|].
+  cbn [raised_by_last]. apply IH. exact H.
+Qed.
+
+Lemma tloop_raise (nested : nested_t) : forall n s log q prev auto s' log' t f x,
+  tloop nested n s log q prev auto = (s', log', t, f) -> f = TProviderRaised x -> rbl x t.
+Proof.
+  induction n as [|n IH]; intros s log q prev auto s' log' t f x H Hf; subst f.
+  - rewrite tloop_O in H.
+    destruct (transcribe complete s log q true prev) as [[s1 log1] c] eqn:T.
+    injection H as _ _ Ht Hc. subst t. apply transcribe_snd in T.
+    destruct c as [c|x0]; cbn in Hc; inversion Hc; subst.
+    cbn. exists s. exact T.
+  - rewrite tloop_S in H. destruct (with_tools s q prev) as [s1 r] eqn:W.
+    destruct r as [c calls|x0].
+    + destruct calls as [|c0 calls'].
+      * injection H as _ _ _ Hc. discriminate.
+      * destruct auto.
+        -- destruct (xall nested s1 log (c0 :: calls')) as [[s2 log2] xs].
+           destruct (tloop nested n s2 log2 q (map snd xs) true) as [[[s3 log3] t'] f'] eqn:E.
+           injection H as _ _ Ht Hc. subst t f'. apply rbl_tools. apply rbl_add.
+           eapply IH; eauto.
+        -- injection H as _ _ _ Hc. discriminate.
+    + injection H as _ _ Ht Hc. subst t. inversion Hc; subst.
+      cbn. exists s. rewrite W. reflexivity.
+Qed.
+
+Lemma twt_raise (nested : nested_t) : forall s log q l a s' log' t f,
+  TWT nested s log q l a = (s', log', t, f) -> raise_ok with_tools complete t f.
+Proof.
+  intros s log q l a s' log' t f H x Hf. unfold twt in H.
+  destruct (has_tools && has_method).
+  - eapply tloop_raise; eauto.
+  - subst f. destruct (transcribe complete s log q false []) as [[s1 log1] c] eqn:T.
+    injection H as _ _ Ht Hc. subst t. apply transcribe_snd in T.
+    destruct c as [c|x0]; cbn in Hc; inversion Hc; subst.
+    cbn. exists s. exact T.
+Qed.
+
+Definition raise_P (_ : Z) (_ : bool) (t : trace) (f : tfinal) : Prop :=
+  raise_ok with_tools complete t f.
+
+Lemma tool_raise_proof : forall d s log q limit auto s' log' t f,
+  top d s log q limit auto = (s', log', t, f) ->
+  raise_ok with_tools complete t f /\ nested_all raise_P t.
+Proof.
+  intros. eapply (top_all raise_P); eauto.
+  intros nested s0 log0 q0 l a s'0 log'0 t0 f0 H0. eapply twt_raise; eauto.
+Qed.
+
+Lemma tool_raise_history_proof : forall cs d s log q rs logf,
+  rcalls d s log q cs = (rs, logf) ->
+  Forall (fun c => raise_ok with_tools complete (c_trace c) (c_final c) /\
+                   nested_all raise_P (c_trace c)) rs.
+Proof.
+  intros. eapply (rcalls_all raise_P); eauto.
+  intros nested s0 log0 q0 l a s'0 log'0 t0 f0 H0. eapply twt_raise; eauto.
+Qed.
+
 Lemma tool_forever_exact_proof :
   always_tools -> has_tools = true -> has_method = true ->
   forall d s log q limit auto s' log' t f,
   top d s log q limit auto = (s', log', t, f) ->
-  exact_when_auto limit auto t /\ nested_all exact_when_auto t.
+  exact_when_auto limit auto t /\ nested_all exact_P t.
 Proof.
   intros Hall Ht Hm d s log q limit auto s' log' t f H.
-  eapply (top_all exact_when_auto); eauto.
+  eapply (top_all exact_P); eauto.
   intros nested s0 log0 q0 l a s'0 log'0 t0 f0 H0. eapply twt_forever; eauto.
 Qed.
 
